@@ -182,54 +182,71 @@ H = Harness(
 )
 
 
+HOWS = ["clean exit", "exception", "clean exit with a teardown callback", "cancellation"]
+
+
 def child_params(tier):
-    return [P("how", 0, 2)]
+    return [P("how", 0, 3), P("nested", 0, 1), P("sametask", 0, 1)]
 
 
 @guard
 def child_fn(a, tier):
-    how = pick(a["how"], 3)
+    from .common import flatten
+
+    how, nested, sametask = pick(a["how"], 4), pick(a["nested"], 2), pick(a["sametask"], 2)
     out = {}
 
     async def main():
         async with anyio.create_task_group() as tg:
-            parent = Context()
-            await parent.__aenter__()
             release = anyio.Event()
             entered = anyio.Event()
 
-            async def holder():
-                async with Context(parent):
-                    entered.set()
-                    await release.wait()
+            async def block():
+                """A well-nested `async with` block that is left while a child is still open."""
+                with anyio.CancelScope() as scope:
+                    try:
+                        async with Context() as parent:
+                            out["parent"] = parent
 
-            tg.start_soon(holder)
-            await entered.wait()
-            try:
-                if how == 0:
-                    await parent.__aexit__(None, None, None)
-                elif how == 1:
-                    e = CbErr("body")
-                    await parent.__aexit__(type(e), e, None)
-                else:
-                    parent.add_teardown_callback(lambda: None)
-                    await parent.__aexit__(None, None, None)
-                out["exit"] = None
-            except BaseException as e:  # noqa
-                out["exit"] = e
-            out["closed"] = parent.closed
+                            async def holder():
+                                async with Context(parent):
+                                    entered.set()
+                                    await release.wait()
+
+                            if sametask:
+                                child = Context(parent)
+                                await child.__aenter__()  # entered by hand and never left
+                            else:
+                                tg.start_soon(holder)
+                                await entered.wait()
+                            if how == 1:
+                                raise CbErr("body")
+                            if how == 2:
+                                parent.add_teardown_callback(lambda: None)
+                            if how == 3:
+                                scope.cancel()
+                                await anyio.sleep(0)
+                        out["exit"] = None
+                    except BaseException as e:  # noqa
+                        out["exit"] = e
+                        if how == 3 and isinstance(e, symsched.Cancelled):
+                            raise
+
+            if nested:
+                async with Context():
+                    await block()
+            else:
+                await block()
+            out["closed"] = out["parent"].closed
             release.set()
+            tg.cancel_scope.cancel()
 
     _, exc, _k = run(main)
-    summary = {"parent_left_by": ["clean exit", "exception", "clean exit with a teardown callback"][how]}
-    from .common import flatten
-
+    summary = {"parent": "nested" if nested else "root", "parent_left_by": HOWS[how], "child": "entered in the same task" if sametask else "held open by another task"}
     e = out.get("exit")
-    # a clean exit must turn into an error naming the problem; when the block is already being left
-    # by an exception, that exception (or the RuntimeError) must propagate - never a silent exit
-    reported = e is not None and (how == 1 or any(isinstance(x, RuntimeError) for x in flatten(e)))
+    reported = e is not None and any(isinstance(x, RuntimeError) for x in flatten(e))
     if not reported:
-        return FAIL(f"open-child-not-reported:{summary['parent_left_by']}", repr(e), summary)
+        return FAIL(f"open-child-not-reported:{'nested' if nested else 'root'}:{HOWS[how]}", f"the parent's exit produced {e!r}", summary)
     if not out["closed"]:
         return FAIL("parent-not-closed", "", summary)
     return OK(summary, True)
@@ -241,9 +258,9 @@ CHILD = Harness(
     fn=child_fn,
     params=child_params,
     cube=lambda tier: 0,
-    title="leaving a context while a child context entered from it (in another task) is still open",
-    bound_text=lambda tier: "parent left cleanly / by an exception / with a teardown callback while the child is open",
-    oracle="the parent's exit raises (a RuntimeError, possibly inside a group, for clean exits; at least the block's own exception otherwise); the parent reports closed",
+    title="leaving a context while a child context entered from it is still open",
+    bound_text=lambda tier: "parent root / nested x left by {" + "; ".join(HOWS) + "} x child held open by another task / entered by hand in the same task",
+    oracle="the parent's exit raises a RuntimeError (possibly inside a group) naming the problem; the parent reports closed",
     outside="-",
     stubs=STUBS_COMMON,
 )
